@@ -155,6 +155,20 @@ CLAIMED['C12'] = dict(
          'lenient processing are both accepted; in Sta13 ignoring the bytes is accepted.',
     design='5/C12')
 
+CLAIMED['C05'] = dict(
+    text='The whole real provider (run loop, socket reader, framing, event FIFO, state machine, ARTIM timer, DIMSE reassembly) '
+         'is stepped in the calling thread in lock-step with an executable reference model of the PS3.8 machine (Table 9-10 '
+         'transcription + ARTIM + transport): from every protocol state reached by a canonical history (16 starts, both '
+         'roles, incl. release-collision and mid-message states) every sequence of 2 (quick) / 3 (thorough) events chosen by '
+         'symbolic selectors from a 20-event alphabet (7 PDU types, partial/rest of a message, unrecognised PDU, close, ARTIM '
+         'expiry, time advance, each legal user primitive); after every step PDUs written, indications, connection, timer '
+         'and state must equal the reference. The named consequences (no P-DATA outside Sta6-8, idle => closed, ARTIM exactly '
+         'in Sta2/Sta13, nothing indicated after the end) follow from the equality and the model invariant, which is checked.',
+    note=TRUSTED + 'Histories = canonical prefix + 2 (3) symbolic events, not arbitrary depth; events are enumerated by the solver '
+         '(finite alphabet); real threads and the user-thread/provider-thread race are outside the claim; P-DATA indications '
+         'are per complete DIMSE message.',
+    design='5/C05')
+
 NOT_YET = 'check not built yet in this revision (see DESIGN.md section 5 for the plan)'
 
 NOT_APPLICABLE = {}
